@@ -106,7 +106,7 @@ SHAPES = {
 #    check, see proposed_fixes/C02_falsy_exception_returned.diff and its witness).  Drawing it would make the check
 #    report that finding on every run; add it to the draw once the repair is in /repo or the finding is registered.
 #    (development: VERIF_C02_PENDING=1 draws them too, to try a repaired tree given by VERIF_REPO.)
-PENDING_SHAPES = set() if os.environ.get("VERIF_C02_PENDING") == "1" else {8}
+PENDING_SHAPES = set()  # shape 8 (falsy exception) was pending until /repo commit 983b1af repaired the decorators
 GENERATED_SHAPES = sorted(set(SHAPES) - PENDING_SHAPES)
 PICKLE_FAITHFUL = sorted(s for s, (_, _, ok) in SHAPES.items() if ok and s not in PENDING_SHAPES)
 SHAPE_CLS: dict = {}
